@@ -19,6 +19,8 @@ _uid = itertools.count()
 STRUCTS = {
   'PA': [('a', ('b', 4)), ('b', ('b', 8))],
   'PB': [('x', ('b', 8)), ('p', ('s', 'PA')), ('y', ('b', 2))],
+  # list-valued fields: ('l', dims, element type); elements are addressed by one path step per dimension
+  'PG': [('tag', ('b', 4)), ('cell', ('l', (2, 3), ('b', 8))), ('pts', ('l', (2, 2), ('s', 'PA'))), ('row', ('l', (3,), ('b', 8)))],
 }
 STRUCT_SRC = '''
 @bitstruct
@@ -31,17 +33,41 @@ class PB:
   x: Bits8
   p: PA
   y: Bits2
+
+@bitstruct
+class PG:
+  tag: Bits4
+  cell: [ [ Bits8 ] * 3 ] * 2
+  pts: [ [ PA ] * 2 ] * 2
+  row: [ Bits8 ] * 3
 '''
 
 def twidth(t):
-  return t[1] if t[0] == 'b' else sum(twidth(ft) for _, ft in STRUCTS[t[1]])
+  if t[0] == 'b': return t[1]
+  if t[0] == 'l':
+    n = 1
+    for dd in t[1]: n *= dd
+    return n * twidth(t[2])
+  return sum(twidth(ft) for _, ft in STRUCTS[t[1]])
+
+def tstep(t, k):
+  """type of the k-th field of a struct / k-th element along the first dimension of a list field"""
+  if t[0] == 's': return STRUCTS[t[1]][k][1]
+  return ('l', t[1][1:], t[2]) if len(t[1]) > 1 else t[2]
+
+def tchildren(t):
+  return range(len(STRUCTS[t[1]])) if t[0] == 's' else range(t[1][0])
 
 def tname(t):
   return f'Bits{t[1]}' if t[0] == 'b' else t[1]
 
-def tconst_src(t, v):
-  """python source of a constant of type t with packed value v"""
-  if t[0] == 'b': return str(v)
+def tconst_src(t, v, elem=False):
+  """python source of a constant of type t with packed value v (list fields: element f of the flattened list sits at
+  bits [f*w, (f+1)*w) of the field, as bitstruct.to_bits packs them; list elements must be Bits objects)"""
+  if t[0] == 'b': return f'Bits{t[1]}({v})' if elem else str(v)
+  if t[0] == 'l':
+    w = twidth(tstep(t, 0))
+    return '[' + ', '.join(tconst_src(tstep(t, k), (v >> (k * w)) & ((1 << w) - 1), True) for k in range(t[1][0])) + ']'
   parts, hi = [], twidth(t)
   for fname, ft in STRUCTS[t[1]]:
     w = twidth(ft); hi -= w
@@ -117,7 +143,7 @@ class Design:
   def otype(self, o):
     if o[0] == 'const': return self.consts[o[1]]['type']
     t = self.sigs[o[1]]['type']
-    for k in o[2]: t = STRUCTS[t[1]][k][1]
+    for k in o[2]: t = tstep(t, k)
     if o[3] is not None: t = ('b', o[3][1] - o[3][0])
     return t
 
@@ -132,6 +158,9 @@ class Design:
     if o[0] == 'const': return set()
     t = self.sigs[o[1]]['type']; lo = 0; hi = twidth(t)
     for k in o[2]:
+      if t[0] == 'l':
+        w = twidth(tstep(t, k)); lo, hi = lo + k * w, lo + (k + 1) * w; t = tstep(t, k)
+        continue
       top = hi
       for i, (_, ft) in enumerate(STRUCTS[t[1]]):
         w = twidth(ft)
@@ -145,7 +174,8 @@ class Design:
   def suffix(self, o, nested=False):
     t = self.sigs[o[1]]['type']; s = ''
     for k in o[2]:
-      s += '.' + STRUCTS[t[1]][k][0]; t = STRUCTS[t[1]][k][1]
+      s += ('.' + STRUCTS[t[1]][k][0]) if t[0] == 's' else f'[{k}]'
+      t = tstep(t, k)
     if o[3] is not None:
       if nested and o in self.nest: s += ''.join(f'[{a}:{b}]' for (a, b) in self.nest[o])
       else: s += f'[{o[3][0]}:{o[3][1]}]'
@@ -190,8 +220,8 @@ class Design:
     cands = []
     def rec(t, fields):
       if t == typ: cands.append(('sig', sid, fields, None))
-      if t[0] == 's':
-        for k, (_, ft) in enumerate(STRUCTS[t[1]]): rec(ft, fields + (k,))
+      if t[0] in ('s', 'l'):
+        for k in tchildren(t): rec(tstep(t, k), fields + (k,))
       elif typ[0] == 'b' and typ[1] < t[1]:
         cands.append(('slice', fields, t[1]))
       elif typ[0] == 'b' and typ[1] == t[1] and full_slice:
@@ -207,7 +237,9 @@ class Design:
     """a random object under signal sid (whole / field / slice)"""
     t = self.sigs[sid]['type']; fields = ()
     while True:
-      if t[0] == 's':
+      if t[0] == 'l':
+        k = rng.randrange(t[1][0]); fields += (k,); t = tstep(t, k)
+      elif t[0] == 's':
         if rng.random() < 0.35: return ('sig', sid, fields, None)
         k = rng.randrange(len(STRUCTS[t[1]])); fields += (k,); t = STRUCTS[t[1]][k][1]
       else:
@@ -221,11 +253,16 @@ class Design:
     out = []
     sid, fields, sl = o[1], o[2], o[3]
     for n in range(len(fields) + (1 if sl is not None else 0)):
-      out.append(('sig', sid, fields[:n], None))
+      anc = ('sig', sid, fields[:n], None)
+      if self.otype(anc)[0] != 'l': out.append(anc)      # a (partly indexed) list of signals is not a signal
     if sl is None:
       t = self.otype(o)
       if t[0] == 's':
-        for k in range(len(STRUCTS[t[1]])): out.append(('sig', sid, fields + (k,), None))
+        for k in range(len(STRUCTS[t[1]])):
+          f2, t2 = fields + (k,), STRUCTS[t[1]][k][1]
+          while t2[0] == 'l':
+            j = rng.randrange(t2[1][0]); f2 += (j,); t2 = tstep(t2, j)
+          out.append(('sig', sid, f2, None))
       elif t[1] > 1:
         for _ in range(3):
           lo = rng.randint(0, t[1] - 1); hi = rng.randint(lo + 1, t[1])
@@ -396,6 +433,15 @@ class Design:
       if style and a.startswith('s.') and not a.endswith(']') and self.is_plain(c['b'] if flip else c['a']):
         return [f'    {a} //= {b}']
       return [f'    connect( {a}, {b} )']
+    if st[0] == 'blk' and self.blks[st[1]].get('lam') is not None:
+      b = self.blks[st[1]]
+      tgt = self.oexpr(b['stmts'][0][0], comp)
+      specs = self.hist if (getattr(self, 'hist', None) and b.get('hist')) else None
+      if specs is None: return [f'    {tgt} //= lambda: {self.lam_src(b["lam"], comp)}']
+      lines = []
+      for i, spec in enumerate(specs):
+        lines += [f'    {"if" if i == 0 else "elif"} p == {i}:', f'      {tgt} //= lambda: {self.lam_src(spec, comp)}']
+      return lines
     if st[0] == 'func':
       b = self.funcs[st[1]]
       lines = ['    @s.func', f'    def fn{b["id"]}():']
@@ -419,6 +465,25 @@ class Design:
     if len(lines) == 2: lines.append('      pass')
     return lines
 
+  def lams_last(self, sts):
+    """a `//= lambda` that calls a helper must come after the helper's definition (its closure cell is read at once)"""
+    late = [st for st in sts if st[0] == 'blk' and self.blks[st[1]].get('lam') is not None]
+    return [st for st in sts if st not in late] + late
+
+  def lam_src(self, spec, comp):
+    if spec[0] == 'read': return self.oexpr(spec[1], comp) + (' + 1' if self.otype(spec[1])[0] == 'b' else '')
+    if spec[0] == 'call': return f'fn{spec[1]}()'
+    return '0'
+
+  def new_lam(self, comp, target, spec, hist=False):
+    """`target //= lambda: expr`: an update block writing target, reading / calling what the expression reads / calls"""
+    b = self.new_blk(comp, False)
+    b['stmts'].append((target, 'at', ('k', 0))); b['lam'] = spec; b['hist'] = hist
+    if spec[0] == 'read': b['reads'].append(spec[1])
+    if spec[0] == 'call': b['calls'].append(spec[1])
+    self.drive(target, ('blk', b['id'])); self.marked.add(target)
+    return b
+
   def is_plain(self, o):
     return o[0] == 'sig' and o[2] == () and o[3] is None
 
@@ -430,7 +495,7 @@ class Design:
       sts += [('blk', b['id']) for b in self.blks if b['comp'] == c['idx']]
       sts += [('func', f['id']) for f in self.funcs if f['comp'] == c['idx']]
       if not identity: rng.shuffle(sts)
-      per[c['idx']] = sts
+      per[c['idx']] = self.lams_last(sts)
     flips = {i: (not identity and rng.random() < 0.5) for i in range(len(self.conns)) if not self.conns[i]['auto']}
     styles = {i: rng.random() < 0.3 for i in range(len(self.conns))}
     return dict(per=per, flips=flips, styles=styles)
@@ -460,7 +525,8 @@ class Design:
     out = ['from pymtl3 import *', STRUCT_SRC]
     for vi, var in enumerate(variants):
       for c in reversed(self.comps):        # children before parents
-        out += [f'class {self.cls_name(c["idx"], vi)}( Component ):', '  def construct( s ):']
+        sig = '  def construct( s, p ):' if (getattr(self, 'hist', None) and c['idx'] == 0) else '  def construct( s ):'
+        out += [f'class {self.cls_name(c["idx"], vi)}( Component ):', sig]
         for sg in self.sigs:
           if sg['comp'] == c['idx'] and sg['name'] not in ('clk', 'reset'):
             out.append(f'    s.{sg["name"]} = {CTOR[sg["kind"]]}( {tname(sg["type"])} )')
@@ -500,7 +566,7 @@ def gen_hierarchy(rng, d, levels=None, nsig=(2, 6)):
     kinds = ['in', 'out', 'wire']
     for i in range(n):
       k = rng.choice(kinds) if i >= 2 else ['in', 'out'][i]
-      d.add_sig(c['idx'], f'{k[0]}{i}', k, rng.choice(TYPES))
+      d.add_sig(c['idx'], f'{k[0]}{i}', k, ('s', 'PG') if rng.random() < 0.12 else rng.choice(TYPES))
   d.hook_clk()
 
 def pick_reader(d, rng, u, typ, tries=40):
@@ -631,9 +697,20 @@ def gen_legal(rng, nnets=None, levels=None, extra_blocks=True, d1=False):
         for x in d.relatives(o, rng):
           if x not in d.nodes and d.free(x, same=('blk', blk['id'])) and rng.random() < 0.5:
             d.add_write(blk, x, rng); break
+  if rng.random() < 0.3:       # a lambda connection: an update block written as `sig //= lambda: expr`
+    comp = rng.randrange(len(d.comps))
+    own = [sg['sid'] for sg in d.sigs if sg['comp'] == comp and sg['kind'] in ('out', 'wire') and sg['type'][0] == 'b']
+    own = [x for x in own if d.whole(x) not in d.nodes and d.free(d.whole(x))]
+    if own:
+      o = d.whole(rng.choice(own))
+      cands = [r for r in d.readable_objs(comp) if d.otype(r) == d.otype(o) and r[1] != o[1]]
+      if cands:      # (a lambda that does not mention `s`, e.g. `lambda: 0`, elaborates but fails in simulation with NameError: not generated here)
+        d.new_lam(comp, o, ('read', rng.choice(cands)))
+        d.tags.append('lambda')
   if d1 and add_d1_shape(d, rng): d.tags.append('d1')
   if rng.random() < 0.35: add_slice_key_collision(d, rng)
   if rng.random() < 0.3: add_deep_override(d, rng, 'legal')
+  if rng.random() < 0.35: add_list_field_nets(d, rng)
   assign_nests(d, rng)
   if rng.random() < 0.4: helperize(d, rng)
   return d
@@ -762,7 +839,7 @@ def helperize(d, rng):
   different intermediate helpers. Every signal bit keeps its single driver (the block that reaches the helper)."""
   done = False
   for blk in list(d.blks):
-    if blk['ff'] or not blk['stmts'] or rng.random() < 0.5: continue
+    if blk['ff'] or blk.get('lam') is not None or not blk['stmts'] or rng.random() < 0.5: continue
     if any(op != 'at' for (_, op, _) in blk['stmts']): continue
     comp = blk['comp']
     shape = rng.choice(['chain', 'chain', 'diamond'])
@@ -782,7 +859,7 @@ def helperize(d, rng):
   # a helper without writes shared by two blocks of one component, reached through different intermediates
   by_comp = {}
   for b in d.blks:
-    if not b['ff']: by_comp.setdefault(b['comp'], []).append(b)
+    if not b['ff'] and b.get('lam') is None: by_comp.setdefault(b['comp'], []).append(b)
   for comp, bs in by_comp.items():
     if len(bs) >= 2 and rng.random() < 0.5:
       b1, b2 = rng.sample(bs, 2)
@@ -845,6 +922,43 @@ def inj_func(d, rng, kind):
       if at is None: return None
       d.add_conn(y, o, at)
   return 'MultiWriterError'
+
+def add_list_field_nets(d, rng):
+  """nets on elements of list-valued struct fields (2-D lists of Bits and of structs, a 1-D list as control): as writers
+  (elements of a top-level input, passed on to ports and into a child) and as readers (driven by constants / written wires)"""
+  comp = rng.randrange(len(d.comps))
+  top_in = comp == 0 and rng.random() < 0.6
+  x = d.add_sig(comp, f'x{len(d.sigs)}', 'in' if top_in else 'wire', ('s', 'PG'))
+  def element():
+    k = rng.choice([1, 1, 2, 2, 3])
+    t = STRUCTS['PG'][k][1]; f = (k,)
+    while t[0] == 'l':
+      j = rng.randrange(t[1][0]); f += (j,); t = tstep(t, j)
+    if len(f) == 3 and f[1] == f[2] and rng.random() < 0.7:       # prefer i != j
+      f = (f[0], f[1], (f[2] + 1) % STRUCTS['PG'][k][1][1][1])
+    if t[0] == 's' and rng.random() < 0.5: f += (rng.randrange(len(STRUCTS[t[1]])),)
+    return ('sig', x, f, None)
+  n = 0
+  for _ in range(rng.randint(2, 5)):
+    e = element()
+    if e in d.nodes or any(m[0] == 'sig' and m[1] == x and d.share_bit(e, m) for m in d.nodes): continue
+    t = d.otype(e)
+    ch = d.comps[comp]['children']
+    if top_in:
+      y = d.whole(_fresh(d, rng.choice(ch), 'in', t)) if ch and rng.random() < 0.4 else d.whole(_fresh(d, comp, rng.choice(['wire', 'out']), t))
+      d.add_conn(e, y, comp); d.drive(y, ('net', ('lf', x, n))); d.marked.add(y); d.marked.add(e)
+      d.netinfo.append(dict(writer=e, members=[e, y], kind='topin', id=('lf', x, n)))
+      d.safe_src.add(e); d.safe_src.add(y)
+    else:
+      src = d.whole(_fresh(d, comp, 'wire', t))
+      if rng.random() < 0.5: _blk_write(d, rng, comp, src)
+      else: assert _const_on(d, rng, src)
+      d.add_conn(src, e, comp)
+      z = d.whole(_fresh(d, comp, rng.choice(['wire', 'out']), t)); d.add_conn(e, z, comp)
+      for o in (e, z): d.drive(o, ('net', ('lf', x, n))); d.marked.add(o)
+      d.netinfo.append(dict(writer=src, members=[src, e, z], kind='blk', id=('lf', x, n)))
+    n += 1
+  if n: d.tags.append('list-field-nets:' + ('input' if top_in else 'wire'))
 
 def gen_self_overlap(rng):
   """a net whose reader shares bits with its own writer: x[a:b] drives x[c:d] of the same signal"""
@@ -1031,6 +1145,64 @@ def unload_module(mod):
 def elaborate(mod, d, vi):
   """returns (top or None, exception class name or None, message)"""
   top = getattr(mod, d.cls_name(0, vi))()
+  try:
+    top.elaborate()
+  except Exception as e:
+    return None, type(e).__name__, str(e)
+  return top, None, ''
+
+# ---------------------------------------------------------------------------------------------
+# history family (C09): one generated class whose construct parameter selects the expression of a `//= lambda`
+# connection; the designs it stands for differ only in what that lambda reads or which helper it calls
+# ---------------------------------------------------------------------------------------------
+def gen_history(rng, family):
+  """returns the list of designs D_0 .. D_{K-1} (D_p = the class constructed with parameter p); D_0 carries the rendering"""
+  import copy
+  d = Design(next(_uid))
+  d.add_comp('top', None)
+  a = d.add_comp('a', 0)
+  if rng.random() < 0.4: d.add_comp('b', 0)
+  d.hook_clk()
+  W = ('b', rng.choice([4, 8]))
+  in0 = d.whole(d.add_sig(0, 'in0', 'in', W)); out = d.whole(d.add_sig(0, 'out', 'out', W))
+  ai = d.whole(d.add_sig(a, 'i', 'in', W)); ao = d.whole(d.add_sig(a, 'o', 'out', W)); aw = d.whole(d.add_sig(a, 'w', 'wire', W))
+  d.add_conn(in0, ai, 0); d.add_conn(ai, aw, a); d.add_conn(aw, ao, a)
+  ok_w = d.whole(d.add_sig(0, 'okw', 'wire', W))
+  f_ok = d.new_func(0); f_ok['stmts'].append((ok_w, 'at', ('k', 1)))
+  legal = [('read', in0), ('read', ao), ('call', f_ok['id']), ('const',)]
+  if family == 'type1':
+    bad = [('read', aw)]
+  elif family in ('type2', 'type3', 'type4'):
+    tgt = {'type2': lambda: d.whole(d.add_sig(0, 'in1', 'in', W)),
+           'type3': lambda: d.whole(d.add_sig(a, 'o2', 'out', W)),
+           'type4': lambda: d.whole(d.add_sig(a, 'w2', 'wire', W))}[family]()
+    f = d.new_func(0); f['stmts'].append((tgt, 'at', ('k', 2)))
+    bad = [('call', f['id'])]
+  elif family == 'multi':
+    seen = d.whole(d.add_sig(0, 'seen', 'out', W))
+    f = d.new_func(0); f['stmts'].append((seen, 'at', ('k', 2)))
+    blk = d.new_blk(0, False); d.add_write(blk, seen, rng, rhs=('k', 0))
+    bad = [('call', f['id'])]
+  else:   # nowriter: a net that only the helper drives
+    y = d.whole(d.add_sig(0, 'y', 'wire', W)); z = d.whole(d.add_sig(0, 'z', 'out', W))
+    d.add_conn(y, z, 0)
+    f = d.new_func(0); f['stmts'].append((y, 'at', ('k', 2)))
+    legal, bad = [('call', f['id'])], [('read', in0), ('read', ao), ('const',)]
+  specs = [rng.choice(legal), rng.choice(bad)]
+  if rng.random() < 0.5: specs.append(rng.choice(legal + bad))
+  rng.shuffle(specs)
+  ds = []
+  for spec in specs:
+    dp = copy.deepcopy(d)
+    dp.uid = d.uid
+    dp.new_lam(0, out, spec, hist=True)
+    dp.hist = specs
+    dp.tags.append('history:' + family)
+    ds.append(dp)
+  return ds
+
+def elaborate_with(mod, d, vi, p):
+  top = getattr(mod, d.cls_name(0, vi))(p)
   try:
     top.elaborate()
   except Exception as e:
@@ -1482,7 +1654,8 @@ def design_to_json(d):
     consts=[[list(c['type']), c['value'], c['at'], bool(c.get('bits'))] for c in d.consts],
     conns=[[_o2j(c['a']), _o2j(c['b']), c['at'], c['auto']] for c in d.conns],
     blks=[[b['comp'], b['ff'], [[_o2j(t), op, [rhs[0]] + ([rhs[1]] if rhs[0] == 'k' else [_o2j(rhs[1])] if rhs[0] == 'r' else [])]
-                                for (t, op, rhs) in b['stmts']], [_o2j(r) for r in b.get('extra_reads', [])], list(b.get('calls', []))] for b in d.blks],
+                                for (t, op, rhs) in b['stmts']], [_o2j(r) for r in b.get('extra_reads', [])], list(b.get('calls', [])),
+           None if b.get('lam') is None else [b['lam'][0]] + ([_o2j(b['lam'][1])] if b['lam'][0] == 'read' else [b['lam'][1]] if b['lam'][0] == 'call' else [])] for b in d.blks],
     funcs=[[f['comp'], [[_o2j(t), op, [rhs[0]] + ([rhs[1]] if rhs[0] == 'k' else [_o2j(rhs[1])] if rhs[0] == 'r' else [])] for (t, op, rhs) in f['stmts']], list(f['calls']), [_o2j(r) for r in f.get('extra_reads', [])]] for f in d.funcs],
     labels=[list(l) for l in d.labels], tags=list(d.tags),
     nest=[[_o2j(o), [list(c) for c in ch]] for o, ch in d.nest.items()])
@@ -1515,6 +1688,8 @@ def design_from_json(j):
   for comp, ff, stmts, extra, *rest in j['blks']:
     b = d.new_blk(comp, ff)
     b['calls'] = list(rest[0]) if rest else []
+    if len(rest) > 1 and rest[1] is not None:
+      l = rest[1]; b['lam'] = ('read', _j2o(l[1])) if l[0] == 'read' else ('call', l[1]) if l[0] == 'call' else ('const',)
     for t, op, rhs in stmts:
       r = ('k', rhs[1]) if rhs[0] == 'k' else ('r', _j2o(rhs[1])) if rhs[0] == 'r' else ('inc',)
       b['stmts'].append((_j2o(t), op, r))
@@ -1547,7 +1722,8 @@ def value_of(top, d, o, mod):
   x = getattr(x, sg['name'])
   t = sg['type']
   for k in o[2]:
-    x = getattr(x, STRUCTS[t[1]][k][0]); t = STRUCTS[t[1]][k][1]
+    x = getattr(x, STRUCTS[t[1]][k][0]) if t[0] == 's' else x[k]       # python position, never through the name
+    t = tstep(t, k)
   if o[3] is not None: x = x[o[3][0]:o[3][1]]
   return int(x.to_bits()) if hasattr(x, 'to_bits') else int(x)
 
@@ -1611,7 +1787,7 @@ def all_variant_orders(d, rng, cap):
   for combo in itertools.product(*[list(itertools.permutations(per_lists[k])) for k in keys]):
     flips = {i: rng.random() < 0.5 for i in range(len(d.conns)) if not d.conns[i]['auto']}
     styles = {i: rng.random() < 0.3 for i in range(len(d.conns))}
-    out.append(dict(per={k: list(p) for k, p in zip(keys, combo)}, flips=flips, styles=styles))
+    out.append(dict(per={k: d.lams_last(list(p)) for k, p in zip(keys, combo)}, flips=flips, styles=styles))
   return out
 
 def describe(d):
